@@ -75,7 +75,7 @@ def runModel : Heap → List Op → List String → List String → (List String
   | h, o :: rest, acc, tg =>
     let tg' := match o with
       | .new id (some (d, e, _)) =>
-        if hasId h id || id == 0 then tg else tg ++ tagsOf (h ++ [{ id := id, parent := none, weight := 0, isOpen := true }]) id d e
+        if !canOpen h id then tg ++ ["open-rejected"] else tg ++ (if d == id then ["hdr-self"] else []) ++ tagsOf (h ++ [{ id := id, parent := none, weight := 0, isOpen := true }]) id d e
       | .prio id d e _ => tg ++ tagsOf h id d e
       | .close id => if (parOf h id).isSome || h.any (fun n => n.parent == some id) then tg ++ ["close-linked"] else tg
       | _ => tg
@@ -85,7 +85,8 @@ def runModel : Heap → List Op → List String → List String → (List String
 
 /-- the oracle: every dumped heap of the implementation is acyclic and closed. -/
 def oracle (impl : String) : String :=
-  if impl == "HANG" || impl.startsWith "PANIC" then "FAIL:hang-or-panic"
+  if impl == "HANG" then "FAIL:cycle-hang"
+  else if impl.startsWith "PANIC" then "FAIL:panic"
   else
     let parts := impl.splitOn ";"
     match parts.mapM parseHeap with
